@@ -120,6 +120,9 @@ func (e *Engine) wantTags(tags []string) bool {
 	if len(tags) == 0 {
 		return true
 	}
+	if pd := e.spec.Properties[e.curProp]; pd != nil && pd.Core[e.unit] {
+		return true // every clause of a core unit counts for the property
+	}
 	return tagsInclude(tags, e.curProp)
 }
 
